@@ -100,10 +100,11 @@ def rival_oracle(w, s):
     refused = lambda o: o["kind"] == "exc" and o.get("type") == "RuntimeError" and "already running" in str(o.get("args"))  # noqa
     both_accepted = not refused(rec["outcome"]) and not refused(r)
     for who, c, o, vals in (("main", 0, rec["outcome"], rec["values"]), ("rival", 1, r, r.get("values"))):
-        if who == "rival" and both_accepted:
-            # the two runs did not overlap as far as the guard is concerned: the second one started while the first was
-            # being finalised or afterwards; only the first caller's call is judged (two caller threads on one object
-            # are not part of the statement beyond "one of two overlapping calls is refused")
+        if both_accepted and o["kind"] != "ok":
+            # the two runs did not overlap as far as the guard is concerned: one of them started while the other was being
+            # finalised (the running flag is reset before the backend is terminated) and may lose its pool.  Two caller
+            # threads on one object are not part of the statement beyond "one of two overlapping calls is refused": when
+            # both were accepted, a call that returns is judged on its values, a call that raises is not judged
             outs.append("not_judged:" + o["kind"])
             continue
         if o["kind"] == "ok":
